@@ -14,17 +14,16 @@ OTHER = [[b'SET', b'ks', b'other'], [b'RPUSH', b'kl', b'o1'], [b'SET', b'new', b
          [b'HSET', b'kh', b'f', b'o'], [b'SET', b'kt', b'other-t']]
 
 
-def eval_form(s, c, a, style, pcall, bysha=False):
-    if style == 'lit' or len(a) < 2:
-        prog, keys, args = [L.call([L.arg_lit(x) for x in a], ret=1, pcall=pcall)], [], []
-    else:
-        keys, args = [a[1]], list(a[2:])
-        prog = [L.call([L.arg_lit(a[0]), L.arg_key(1)] + [L.arg_arg(i + 1) for i in range(len(args))], ret=1, pcall=pcall)]
+def eval_prog(s, c, prog, keys, args, bysha=False):
+    """EVAL (or SCRIPT LOAD + EVALSHA) of a DSL program; the program is recorded next to the request."""
     src = L.render(prog)
+    prev = s.enrich
 
     def enrich(ev):
         ev['prog'] = L.clean(prog)
         ev['sha'] = list(L.sha1hex(src))
+        if prev:
+            prev(ev)
     s.enrich = enrich
     try:
         if bysha:
@@ -32,16 +31,26 @@ def eval_form(s, c, a, style, pcall, bysha=False):
             return s.cmd(c, [b'EVALSHA', L.sha1hex(src), str(len(keys)).encode()] + keys + args)
         return s.cmd(c, [b'EVAL', src, str(len(keys)).encode()] + keys + args)
     finally:
-        s.enrich = None
+        s.enrich = prev
 
 
-def run_forms(s, path, db=0, odb=None, subset=None, prefix='form'):
+def eval_form(s, c, a, style, pcall, bysha=False):
+    if style == 'lit' or len(a) < 2:
+        prog, keys, args = [L.call([L.arg_lit(x) for x in a], ret=1, pcall=pcall)], [], []
+    else:
+        keys, args = [a[1]], list(a[2:])
+        prog = [L.call([L.arg_lit(a[0]), L.arg_key(1)] + [L.arg_arg(i + 1) for i in range(len(args))], ret=1, pcall=pcall)]
+    return eval_prog(s, c, prog, keys, args, bysha)
+
+
+def run_forms(s, path, db=0, odb=None, subset=None, prefix='form', reset=True):
     """Emit one segment per form into the session's trace; returns the number of segments."""
     n = 0
     for a in (subset if subset is not None else forms.FORMS):
         for cid in list(s.clients):
             s.close(cid)
-        s.trace.emit({'k': 'reset'})
+        if reset:
+            s.trace.emit({'k': 'reset'})
         s.note('%s/%s/db%d/%s' % (prefix, path, db, forms.form_name(a)))
         c = s.open()
         s.cmd(c, [b'FLUSHALL'])
